@@ -52,7 +52,10 @@ partial def loop (h : IO.FS.Stream) (out : IO.FS.Stream) (m : Mode) : IO Unit :=
         out.putStrLn s
         loop h out (.reg r')
       | .kv s dd dropped =>
-        if l.op = "dropcoll" then
+        if l.op = "hopen" then
+          out.putStrLn "r=ok"      -- a further handle on the same bucket: nothing the KV model distinguishes
+          loop h out m
+        else if l.op = "dropcoll" then
           out.putStrLn "r=ok"
           loop h out (.kv (opDropColl s l.p0) (dd.filter (fun d => d.coll ≠ l.p0)) (if dropped.contains l.p0 then dropped else l.p0 :: dropped))
         else if l.op = "mkcoll" then
